@@ -83,6 +83,17 @@ Theorem constant_padding_affine : forall (c : R) (x h : list R) (n_out : nat) (o
 Proof. exact const_affine. Qed.
 Print Assumptions constant_padding_affine.
 
+(* FULL STATEMENT, FALSE of the code as it stands (finding offset-out-of-range-accepted):
+   "an offset outside 0 .. |n_out - n| is rejected".  Python slice wrap-around and NumPy
+   length-1 broadcasting make the faithful model (and resize_array) return arrays:
+     resize_array([5], (4,), offset=-3)          -> [0, 5, 0, 0]
+     resize_array([1,2,3,4,5], (2,), offset=4)   -> [5, 5]
+   The theorems above are the partial statement: they hold under [offset_ok]. *)
+Theorem offset_range_checked_refuted :
+  (offset_ok 1 4 (-3) = false /\ resize1 PConstant Forward 0 true [5] 4 (-3) = Ok [0; 5; 0; 0]) /\
+  (offset_ok 5 2 4 = false /\ resize1 PConstant Forward 0 true [1; 2; 3; 4; 5] 2 4 = Ok [5; 5]).
+Proof. exact offset_range_refuted. Qed.
+
 (* ---- N-d (flat C-order arrays).  [sep_loop m d c cast outer ishape oshape offs]
    applies the 1-d resize along axis 0, 1, ... ([Lib.Axis.along]); [sep_rev_loop]
    applies the 1-d maps of the way back in the opposite axis order.  Both are
